@@ -368,6 +368,7 @@ impl World {
             StoreBackend::Local { .. } => panic!("harness: fork of a local-disk world"),
         };
         let core = SimCore::new(store);
+        core.clock_base.store(self.core.clock_base.load(std::sync::atomic::Ordering::SeqCst), std::sync::atomic::Ordering::SeqCst);
         World {
             alt: self.alt.clone(),
             core,
@@ -686,6 +687,11 @@ impl World {
             snap,
             call,
         }
+    }
+
+    /// Move the simulated wall clock (what Conserve records as start and end times).
+    pub fn set_clock_base(&self, secs: i64) {
+        self.core.clock_base.store(secs, std::sync::atomic::Ordering::SeqCst);
     }
 
     pub fn restore(&mut self, spec: &RestoreSpec) -> RestoreRun {
